@@ -31,7 +31,7 @@ CHECKS = {
             "Every generated (dialer list, listener set, version, carrier script, payload sizes) case runs the real dialer/listener futures over in-memory pipes; "
             "oracle = first-common-name rule, both sides agree, payload written immediately after negotiation arrives unchanged with zero extra bytes before EOF, "
             "termination by virtual-time deadlock detection; the WebRTC message variant is enumerated over all main/fallback/listener subsets of 4 names x 4 groupings.",
-            "Reference = multistream-select 0.13; names follow the multistream grammar. Node level: two real nodes with notification protocols over ordered (main, fallbacks) lists of 1-3 of 4 names; the name reported by the listener's validation prompt and by the dialer's stream-opened event must be the dialer's most preferred common name.",
+            "Reference = multistream-select 0.13; names follow the multistream grammar. Node level: two real nodes with notification protocols over ordered (main, fallbacks) lists of 1-3 of 4 names; the name reported by the listener's validation prompt and by the dialer's stream-opened event must be the dialer's most preferred common name. The first operation on the negotiated stream varies per case and side (plain write, vectored write with 2 or 3 slices, flush first, read before write; vectored reads in half of the cases) and each style is counted in the evidence.",
             "DESIGN.md §3 C03"),
     "C04": ("exploration",
             "message-sequence equality monitor over real Substreams on in-memory yamux + lock-step hand-off check + raw malicious sender + allocation monitor, both build profiles",
